@@ -130,6 +130,10 @@ class FakeReq:
 # --------------------------------------------------------------------------------------------------
 # sockets
 # --------------------------------------------------------------------------------------------------
+class Spinning(BaseException):
+    """the code under test reads an ended stream over and over: on a real socket it would spin for ever"""
+
+
 class TSock:
     """Client socket handed to the worker.  Either purely scripted (real=None: recv from `segs`, writes
     captured) or a recording proxy around a real socket.  `faults` = list of fault codes consumed by the
@@ -185,6 +189,11 @@ class TSock:
         if self.real is not None:
             return self.real.recv(n)
         if not self.segs:
+            # the stream has ended; a reader that asks again and again will never get anything else
+            self.eof_reads = getattr(self, "eof_reads", 0) + 1
+            if self.eof_reads > 5000:
+                self.trace.append(("stuck", "recv", self.eof_reads))
+                raise Spinning("recv() called %d times on a stream that has ended" % self.eof_reads)
             return b""
         s = self.segs[0]
         if isinstance(s, tuple):
@@ -426,6 +435,13 @@ class World:
                     c, text, has_req, eof = exc_spec(e)
                     eff["acts"].append(("raise", (cls_name(c), text, has_req, eof)))
                     raise
+            elif a[0] == "start_exc":
+                # the PEP 3333 error idiom: start_response(status, headers, exc_info) from inside an except block.  Oracle-only
+                # act (Model/Handle.v has no exc_info): never part of a case that is sent to the model.
+                try:
+                    raise ValueError("late failure of the application")
+                except ValueError:
+                    st["write"] = start_response("%d Late" % a[1], [("X-A", "b")], sys.exc_info())
             elif a[0] == "hook":
                 a[1]()
             return None
